@@ -1,6 +1,7 @@
 import Bng.Drv.Common
 import Bng.Model.PppoeServer
 import Bng.Model.PppoeMonitor
+import Bng.Model.PppoeTimed
 /-
   bngdrv component `pppoesrv`: replays traces of the real pppoe.Server and runs the C04 monitor on the
   implementation's observations.
@@ -15,7 +16,7 @@ import Bng.Model.PppoeMonitor
          => sent=<frames|-> sess=<sid:mac:STATE:auth|unauth:ip|-,…|-> pool=<free>/<allocated>
 -/
 namespace Bng.Drv.PppoeServerDrv
-open Bng Bng.Drv Bng.PppoeServer Bng.PppoeMon
+open Bng Bng.Drv Bng.PppoeServer Bng.PppoeMon Bng.PppoeTimed
 
 def showOut : Out → String
   | .pado m => s!"PADO>m{m}"
@@ -111,8 +112,7 @@ structure St where
   mon : Mon := {}
   /-- Server.Stop() was called: the receive loop is gone, every later frame is inert -/
   stopped : Bool := false
-  /-- the timed layer over the model: hours since the last frame the server accepted on each session
-      (Session.LastActivity is refreshed by handleSession after the owner check; a new session starts at 0) -/
+  /-- the timed layer over the model (`Bng.PppoeTimed`): hours since the last frame the server accepted on each session -/
   idle : AMap Nat Nat := []
   /-- the same clock kept by the MONITOR from the implementation's observations alone (owner of a session = the MAC
       its PADS went to): judges which sessions a timed sweep pass may and must remove -/
@@ -144,14 +144,14 @@ def step (st : St) (toks : List String) (impl : String) : St × LineResult :=
     match st.model, toks with
     | some m, ["age", n] =>
       match n.toNat? with
-      | some n => ({ st with idle := m.sessions.map fun p => (p.1, (AMap.lookup st.idle p.1).getD 0 + n),
+      | some n => ({ st with idle := (stepT { srv := m, idle := st.idle } (.age n)).1.idle,
                              midle := st.mon.prev.map fun x => (x.sid, (AMap.lookup st.midle x.sid).getD 0 + n) },
                    { modelObs := showSrv m [] })
       | none => (st, { modelObs := "badop" })
     | some m, ["sweep", h] =>
       match h.toNat? with
       | some h =>
-        let keep := (m.sessions.filter fun p => (AMap.lookup st.idle p.1).getD 0 ≤ h).map (·.1)
+        let keep := keepFor { srv := m, idle := st.idle } h
         -- monitor: a session with traffic in the last <h> hours survives the pass, an older one does not
         let after := (parseObs impl).seen.map (·.sid)
         let vt := st.mon.prev.flatMap fun x =>
@@ -176,12 +176,8 @@ where
       let shown := showSrv m' outs
       let rt := if parseObs shown == obsOf m' outs then [] else
         [("obs-roundtrip", "none", s!"parseObs (showSrv ·) ≠ obsOf · on the model's own observation {shown}")]
-      -- Session.LastActivity: refreshed by every session-stage frame that passes the owner check
-      let idle1 := match i with
-        | .lcp m0 sid _ | .pap m0 sid _ _ | .ipcp m0 sid _ | .ip m0 sid =>
-          if (ownerGate m m0 sid).isSome then AMap.insert st.idle sid 0 else st.idle
-        | _ => st.idle
-      let idle' := idle1.filter fun p => (AMap.lookup m'.sessions p.1).isSome
+      -- Session.LastActivity: the timed model's rule (`PppoeTimed.stepT`; its server component is `step m i`)
+      let idle' := (stepT { srv := m, idle := st.idle } (.frame i)).1.idle
       let midle1 := match i with
         | .lcp m0 sid _ | .pap m0 sid _ _ | .ipcp m0 sid _ | .ip m0 sid =>
           if AMap.lookup st.mon.owner sid = some m0 then AMap.insert st.midle sid 0 else st.midle
